@@ -56,7 +56,13 @@ func Unlocked() {
 }
 `
 
+// the one package below the samples the simulator uses: the sample custom file format.
+const keptSample = "extensions/omniv21/samples/customfileformats/jsonlog/jsonlogformat"
+
 func skipDir(rel string) bool {
+	if rel == keptSample || strings.HasPrefix(keptSample, rel+"/") {
+		return false
+	}
 	for _, p := range []string{".git", "cli", "doc", "sponsors", "extensions/omniv21/samples", "validation/gen"} {
 		if rel == p || strings.HasPrefix(rel, p+"/") {
 			return true
